@@ -740,6 +740,8 @@ def mv_tolerance(op: Any, x: Any, y: Any) -> float:
     sizes = [np.dtype(l.dtype).itemsize for l in jax.tree.leaves(x) + jax.tree.leaves(y)] or [4]
     name = type(op).__name__
     inexact = name in dense.TRIG or (name == 'SymmetricBandToeplitzOperator' and op.method in ('fft', 'overlap_save'))
+    if name == 'SymmetricBandToeplitzOperator' and inexact:
+        sizes.append(np.dtype(op.band_values.dtype).itemsize)      # the kernel is transformed in its own precision
     if min(sizes) >= 8:
         return 1e-9 if inexact else 1e-12
     if min(sizes) == 2:
